@@ -544,6 +544,16 @@ func handleTableRefs(p *SelectPlan, stmt *ast.SelectStmt) error {
 }
 
 func handleJoin(p *TableAliasStmtInfo, join *ast.Join) error {
+	return handleJoinTree(p, join, true)
+}
+
+// handleJoinTree rewrites a (left-deep) join tree. restricts tells whether every
+// row of the result has passed the ON conditions of this tree: that holds for the
+// ON condition of an inner join, but an outer join keeps the rows of its
+// preserved side whatever its ON condition says, and a RIGHT JOIN NULL-extends
+// the rows of its whole left tree. Only a restricting ON condition may prune
+// the route result.
+func handleJoinTree(p *TableAliasStmtInfo, join *ast.Join, restricts bool) error {
 	if err := precheckJoinClause(join); err != nil {
 		return fmt.Errorf("precheck Join error: %v", err)
 	}
@@ -557,7 +567,7 @@ func handleJoin(p *TableAliasStmtInfo, join *ast.Join) error {
 				return fmt.Errorf("rewrite left TableSource error: %v", err)
 			}
 		case *ast.Join:
-			if err := handleJoin(p, left); err != nil {
+			if err := handleJoinTree(p, left, restricts && join.Tp != ast.RightJoin); err != nil {
 				return fmt.Errorf("handle nested left Join error: %v", err)
 			}
 		default:
@@ -577,7 +587,8 @@ func handleJoin(p *TableAliasStmtInfo, join *ast.Join) error {
 
 	// 改写ON条件
 	if join.On != nil {
-		err := rewriteOnCondition(p, join.On)
+		isOuter := join.Tp == ast.LeftJoin || join.Tp == ast.RightJoin
+		err := rewriteOnCondition(p, join.On, restricts && !isOuter)
 		if err != nil {
 			return fmt.Errorf("rewrite on condition error: %v", err)
 		}
@@ -668,12 +679,12 @@ func rewriteTableNameInTableSource(p *TableAliasStmtInfo, tableSource *ast.Table
 	return nil
 }
 
-func rewriteOnCondition(p *TableAliasStmtInfo, on *ast.OnCondition) error {
+func rewriteOnCondition(p *TableAliasStmtInfo, on *ast.OnCondition, prune bool) error {
 	has, result, decorator, err := handleComparisonExpr(p, on.Expr)
 	if err != nil {
 		return fmt.Errorf("rewrite Expr in OnCondition error: %v", err)
 	}
-	if has {
+	if has && prune {
 		p.GetRouteResult().Inter(result)
 	}
 	on.Expr = decorator
